@@ -155,7 +155,7 @@ func (v *V17Table) Read(sids []uint64) (rows []V17Row, err error) {
 	}
 	defer snp.decRef()
 	const minTS, maxTS = int64(0), int64(1) << 62
-	pp, _ := snp.getParts(nil, storage.NewShardCache("verif", 0, 0), minTS, maxTS)
+	pp, _ := snp.getParts(nil, storage.NewBypassCache(), minTS, maxTS)
 	ss := make([]common.SeriesID, len(sids))
 	for i := range sids {
 		ss[i] = common.SeriesID(sids[i])
